@@ -12,6 +12,7 @@ import GgrsModel.Proofs.Monad
 import GgrsModel.Proofs.Queue
 import GgrsModel.Proofs.DropWorld
 import GgrsModel.Proofs.LockstepDrop
+import GgrsModel.Proofs.DelayDrop
 
 namespace Ggrs.Endpoint
 
@@ -133,7 +134,7 @@ theorem C07_survivor_timeline (x y : P2P × TLState) (h0 : XInv x) (hrun : XStar
         ((gh.specs p).vals.length : Int) = (rget y.1.localConnectStatus p).lastFrame + 1) ∧
       XInv (s', execReqs y.2 reqs') := by
   obtain ⟨gh, st0, h⟩ := XInv_run x y h0 hrun
-  obtain ⟨s1, reqs1, gh1, _, gh', hset, hright, hinv', _, _, _, _, _, _, hcase⟩ :=
+  obtain ⟨s1, reqs1, gh1, _, gh', hset, hright, hinv', _, _, _, _, _, _, _, hcase⟩ :=
     advanceRollbackFrame_specD y.1 s' gh y.2 [] reqs' now st0 h hadv
   refine ⟨gh1, reqs1, ?_, ?_, ?_, ⟨gh', _, SessInvD_rebase s' gh' y.2 reqs' _ hinv'⟩⟩
   · rcases hcase with ⟨hr, _⟩ | ⟨c, ins, hc, hr, hil, hok, _⟩
@@ -150,6 +151,30 @@ theorem C07_survivor_timeline (x y : P2P × TLState) (h0 : XInv x) (hrun : XStar
     rw [hset.specs]
     have := h.remote p hp hnl
     rw [this.2.2, this.2.1]
+
+/-- `C07_final_timeline` at one state with the invariant. -/
+theorem C07_final_timeline_at (s s' : P2P) (gh : DGhost) (t : TLState) (st0 : List ConnStatus)
+    (h : SessInvD s gh t [] st0) (now : Nat) (reqs' : List Request)
+    (hadv : s.advanceRollbackFrame now [] = .ok (s', reqs')) :
+    ∃ gh' : DGhost, ∀ p, p < s.sync.queues.length → (rget s.localConnectStatus p).disconnected = true →
+      ∀ f : Nat, (f : Int) < s'.sync.currentFrame →
+        ((rget s.localConnectStatus p).lastFrame < (f : Int) →
+          ((execReqs t reqs').R f).getD p default = (0, .disconnected)) ∧
+        (p ∉ s.localPlayerHandles → (f : Int) ≤ (rget s.localConnectStatus p).lastFrame →
+          (((execReqs t reqs').R f).getD p default).1 = (gh'.specs p).vals.getD f 0 ∧
+          ((gh'.specs p).vals.length : Int) = (rget s.localConnectStatus p).lastFrame + 1) := by
+  obtain ⟨_, _, _, _, gh', _, _, hinv', hh, _, hnq, _, hsame, _, _⟩ :=
+    advanceRollbackFrame_specD s s' gh t [] reqs' now st0 h hadv
+  refine ⟨gh', ?_⟩
+  intro p hp hd f hf
+  have hp' : p < s'.sync.queues.length := by rw [hnq]; exact hp
+  have hst := hsame p hd
+  have hd' : (rget s'.localConnectStatus p).disconnected = true := by rw [hst]; exact hd
+  have hlp : s'.localPlayerHandles = s.localPlayerHandles := by unfold P2P.localPlayerHandles; rw [hh]
+  refine ⟨fun hlf => hinv'.tinv.deadRows p hp' hd' f (by rw [hst]; exact hlf) hf, fun hnl hle => ⟨?_, ?_⟩⟩
+  · exact deadColumn_right s' gh' t reqs' _ hinv' p hp' hd' (by rw [hlp]; exact hnl) f hf (by rw [hst]; exact hle)
+  · have := hinv'.remote p hp' (by rw [hlp]; exact hnl)
+    rw [this.2.2, this.2.1, hst]
 
 /-- **C07, the final timeline (rollback sessions, either saving mode; drops detected locally).** After any
 run of arrivals, calls, accepted `disconnect_player` calls and Disconnected events, let the game
@@ -170,18 +195,23 @@ theorem C07_final_timeline (x y : P2P × TLState) (h0 : XInv x) (hrun : XStar x 
           (((execReqs y.2 reqs').R f).getD p default).1 = (gh'.specs p).vals.getD f 0 ∧
           ((gh'.specs p).vals.length : Int) = (rget y.1.localConnectStatus p).lastFrame + 1) := by
   obtain ⟨gh, st0, h⟩ := XInv_run x y h0 hrun
-  obtain ⟨_, _, _, _, gh', _, _, hinv', hh, _, hnq, _, hsame, _, _⟩ :=
-    advanceRollbackFrame_specD y.1 s' gh y.2 [] reqs' now st0 h hadv
-  refine ⟨gh', ?_⟩
-  intro p hp hd f hf
-  have hp' : p < s'.sync.queues.length := by rw [hnq]; exact hp
-  have hst := hsame p hd
-  have hd' : (rget s'.localConnectStatus p).disconnected = true := by rw [hst]; exact hd
-  have hlp : s'.localPlayerHandles = y.1.localPlayerHandles := by unfold P2P.localPlayerHandles; rw [hh]
-  refine ⟨fun hlf => hinv'.tinv.deadRows p hp' hd' f (by rw [hst]; exact hlf) hf, fun hnl hle => ⟨?_, ?_⟩⟩
-  · exact deadColumn_right s' gh' y.2 reqs' _ hinv' p hp' hd' (by rw [hlp]; exact hnl) f hf (by rw [hst]; exact hle)
-  · have := hinv'.remote p hp' (by rw [hlp]; exact hnl)
-    rw [this.2.2, this.2.1, hst]
+  exact C07_final_timeline_at y.1 s' gh y.2 st0 h now reqs' hadv
+
+/-- `C07_final_timeline` for runs that also contain `set_input_delay` calls of local players — the
+largest world: arrivals, calls, delay changes, accepted `disconnect_player` calls, Disconnected
+events, in any order. -/
+theorem C07_final_timeline_delay (x y : P2P × TLState) (h0 : YInv x) (hrun : YStar x y)
+    (now : Nat) (s' : P2P) (reqs' : List Request)
+    (hadv : y.1.advanceRollbackFrame now [] = .ok (s', reqs')) :
+    ∃ gh' : DGhost, ∀ p, p < y.1.sync.queues.length → (rget y.1.localConnectStatus p).disconnected = true →
+      ∀ f : Nat, (f : Int) < s'.sync.currentFrame →
+        ((rget y.1.localConnectStatus p).lastFrame < (f : Int) →
+          ((execReqs y.2 reqs').R f).getD p default = (0, .disconnected)) ∧
+        (p ∉ y.1.localPlayerHandles → (f : Int) ≤ (rget y.1.localConnectStatus p).lastFrame →
+          (((execReqs y.2 reqs').R f).getD p default).1 = (gh'.specs p).vals.getD f 0 ∧
+          ((gh'.specs p).vals.length : Int) = (rget y.1.localConnectStatus p).lastFrame + 1) := by
+  obtain ⟨gh, st0, h⟩ := (YInv_run x y h0 hrun).xinv
+  exact C07_final_timeline_at y.1 s' gh y.2 st0 h now reqs' hadv
 
 /-- The premises of `C07_survivor_timeline` are satisfiable: a freshly built session
 (all queues new, every status blank, frame 0, no disconnect pending) satisfies `XInv` against any
@@ -222,6 +252,6 @@ theorem C07_lockstep_timeline (x y : P2P × TLState) (h0 : ∃ gh, LkInvD x.1 gh
 example (s : P2P) (R : Nat → List (Input × InputStatus)) (n : Nat)
     (hq : s.sync.queues = List.replicate n InputQueue.new) (hst : s.localConnectStatus = List.replicate n {})
     (hc : s.sync.currentFrame = 0) (hdf : s.disconnectFrame = NULL_FRAME) :
-    ∃ gh, LkInvD s gh ⟨0, R⟩ := LkInvD_init s R n hq hst hc hdf
+    ∃ gh, LkInvD s gh ⟨0, R⟩ := ⟨_, LkInvD_init s R n hq hst hc hdf⟩
 
 end Ggrs
